@@ -3,6 +3,10 @@
    (props/C17.v) and, through the driver, on the implementation's real output.  The gutter is split
    off by position; its width is computed here from the source, not taken from the output. *)
 From RichModel Require Import Prelude Cells Syntax.
+From RichModel Require Wrap.
+
+(* non-whitespace characters in the sense of Text.wrap (Python's \s / str.isspace class, C02) *)
+Definition uns (s : str) : str := Wrap.nonspace s.
 
 Definition blank (s : str) : bool := forallb is_sp s.
 
@@ -53,14 +57,14 @@ Definition guide_line_ok_b (e : str) (w : Z) (b : str) : bool :=
 (* the contract of Text.wrap (property C02) as far as C17 needs it: the non-space characters of
    the produced lines are those of the source line, in order, and every produced line fits *)
 Definition wrap_ok_b (e : str) (w : Z) (bs : list str) : bool :=
-  str_eqb (nonspace (concat bs)) (nonspace e)
+  str_eqb (uns (concat bs)) (uns e)
   && forallb (fun b => cell_len (rstrip_sp b) <=? w) bs
   && negb (match bs with [] => true | _ => false end).
 Definition body_ok_b (ww guides : bool) (e : str) (w : Z) (bs : list str) : bool :=
   if guides then
     if ww then   (* a narrow code width may wrap inside the guides: compare with guide characters removed *)
       let ng := filter (fun c => negb (c =? GUIDE)) in
-      str_eqb (nonspace (ng (concat bs))) (nonspace (ng e))
+      str_eqb (uns (ng (concat bs))) (uns (ng e))
       && forallb (fun b => cell_len (rstrip_sp b) <=? w) bs
       && negb (match bs with [] => true | _ => false end)
     else match bs with [b] => guide_line_ok_b e w b | _ => false end
@@ -132,8 +136,8 @@ Definition check_render (n m b : bool) (o : opts) (code : str) (W : Z) (out : li
   else if negb b then true
   else if o_word_wrap o then
     (match o_range o with
-     | None => str_eqb (nonspace (concat out)) (nonspace (concat L))
-     | Some _ => is_prefix (nonspace (concat out)) (nonspace (concat L))
+     | None => str_eqb (uns (concat out)) (uns (concat L))
+     | Some _ => is_prefix (uns (concat out)) (uns (concat L))
      end) && forallb (fun l => cell_len (rstrip_sp l) <=? cw) out
   else check_plain cw L out 0 (match o_range o with Some (_, e) => Some e | None => None end).
 
